@@ -237,6 +237,7 @@ func runOne(t *testing.T, job *Job, idx int, seed uint64, ch *Choices) (res *Run
 	}()
 	defer close(stopWd)
 
+	resetUniq()
 	var pre *watchPre
 	if job.Engine == "watch" {
 		pre = prepareWatch(ch, job, idx)
